@@ -247,13 +247,16 @@ MetaClauses(c, begin, e, stats, view, notes) ==
       after == TLCEval(Relabel(e.after))
       reqs == ReqPaths(c, stats)
       ok == c.retS = "ok" /\ c.retR = "ok"
+      merge == c.mode = "merge"
   IN IF ~ok THEN Cl(c.faults = 0, "C19.metadataOnlyTransferFailed")
      ELSE Cl(~e.listing.present \/ ~e.listing.framingOK, "C19.listingFraming")
           \cup Cl(e.listing.recs # wantSh, "C19.listingRecordsEqualAnnouncedStats")
-          \cup Pfx("C19", ConvergedClauses(proj, after, before))
+          \* the listing is a file of the destination: never written through a symlink of that name
+          \cup Cl("listingOutsideTouched" \in DOMAIN e /\ e.listingOutsideTouched, "C19.listingWrittenThroughSymlink")
+          \cup (IF merge THEN Pfx("C19", OverlayClauses(proj, after, before)) ELSE Pfx("C19", ConvergedClauses(proj, after, before)))
           \cup Cl(~(reqs \subseteq {p \in selected : Has(view, p) /\ At(view, p).t = "file" /\ At(view, p).hl = <<>>}),
                   "C19.contentRequestedForUnselectedEntry")
-          \cup Cl(~ReqOK(reqs, proj, before, c.differ, FALSE), "C19.contentRequestSet")
+          \cup Cl(~ReqOK(reqs, proj, before, c.differ, merge), "C19.contentRequestSet")
           \* each selected entry / needed ancestor is applied once
           \cup Cl(\E k1, k2 \in NonDelete(notes) : k1 # k2 /\ notes[k1].p = notes[k2].p, "C19.entryAppliedTwice")
 
